@@ -7,7 +7,16 @@ package webrtc
 //     non-application section exists; the section's media kind and its single direction attribute equal Kind() / Direction(),
 //     translated to the SDP literals by the monitor's OWN tables (c12KindLiteral / c12DirLiteral), not by the String() methods
 //     the SDP writer prints;
-//   * a sending track (Sender().Track() != nil and direction sendrecv/sendonly) is announced with `a=msid:<streamID> <trackID>`;
+//   * a sending track is announced with `a=msid:<streamID> <trackID>`. Which track a sender sends is the monitor's OWN record
+//     (c12Case.attached) of what the harness attached through AddTrack / AddTransceiverFromTrack / AddTransceiverFromKind with a
+//     sending direction / ReplaceTrack and detached through ReplaceTrack(nil) / RemoveTrack — kept from the OUTCOMES of those
+//     calls: a call that returns an error (track of the other kind, simulcast envelope, codec that cannot be bound) leaves the
+//     sender as it was. It is not RTPSender.Track(): the SDP writer omits msid / ssrc lines for a sender whose Track() is nil,
+//     so a sender that lost its track by accident would silence writer and oracle alike (Track() is only compared, counter
+//     model_divergence_sender_track, and a difference is named in the cause signature). The transceiver direction must be
+//     sendrecv / sendonly;
+//   * the track objects are the harness's own (c12Track: TrackLocalStaticSample with recorded Bind / Unbind): every SSRC a
+//     sending track is bound to at that moment (= it is transmitting on it) must be among the a=ssrc ids;
 //     the set of a=ssrc ids, the a=ssrc-group:FID pairs and the a=ssrc-group:FEC-FR pairs equal what the sender itself holds
 //     (RTPSender.trackEncodings[i].ssrc / .ssrcRTX / .ssrcFEC read white-box under RTPSender.mu = "the SSRCs its sender will
 //     use"; NOT RTPSender.GetParameters(), from which sdp.go:addSenderSDP writes those very lines — GetParameters() is only
@@ -20,15 +29,21 @@ package webrtc
 //     m-section can never be withdrawn): presence is only counted there, duplication is still judged.
 // The SDP side is read with kit.ParseSDP only.
 //
+// Tracks are of codecs that are registered and negotiated, registered but not negotiated (in a quarter of the cases the peer's
+// engine lacks some of pc's codecs) or not registered at all; after a negotiation ReplaceTrack gets a larger share of the
+// operations and prefers transmitting senders, so that its success path and each of its error paths are followed by offers.
+//
 // Histories cover both roles in the first negotiation: the PeerConnection under test may offer first, or may first ANSWER an
 // offer of the peer (media only / data only / media + data) and create its own offers afterwards, so that offers are built
 // against every kind of current remote description (none, with, without application section).
 
 import (
+	"errors"
 	"fmt"
 	"sort"
 	"strconv"
 	"strings"
+	"sync"
 	"testing"
 	"time"
 
@@ -51,15 +66,24 @@ var c12Engines = []c12EngineSpec{ //nolint:gochecknoglobals
 	{"fec", false, true},
 }
 
-func c12BuildEngine(s c12EngineSpec) *MediaEngine {
+func c12BuildEngine(s c12EngineSpec) *MediaEngine { return c12BuildEngineWithout(s, nil) }
+
+// c12BuildEngineWithout builds the engine of spec s; with a non-empty drop set it is always the explicit codec list (also for
+// the "default" spec) without the dropped mime types (and without the rtx codec that belongs to a dropped video codec): the
+// engine of a peer that supports only a SUBSET of the codecs, so that a negotiation leaves pc with fewer negotiated than
+// registered codecs.
+func c12BuildEngineWithout(s c12EngineSpec, drop map[string]bool) *MediaEngine {
 	me := &MediaEngine{}
-	if s.Name == "default" {
+	if s.Name == "default" && len(drop) == 0 {
 		if err := me.RegisterDefaultCodecs(); err != nil {
 			panic(err)
 		}
 	} else {
 		fb := []RTCPFeedback{{Type: "nack"}, {Type: "nack", Parameter: "pli"}, {Type: "goog-remb"}}
 		reg := func(c RTPCodecParameters, typ RTPCodecType) {
+			if drop[c.MimeType] || (c.MimeType == MimeTypeRTX && ((c.SDPFmtpLine == "apt=96" && drop[MimeTypeVP8]) || (c.SDPFmtpLine == "apt=102" && drop[MimeTypeH264]))) {
+				return
+			}
 			if err := me.RegisterCodec(c, typ); err != nil {
 				panic(err)
 			}
@@ -115,6 +139,13 @@ type c12Case struct {
 	peerDCNeg  bool // ... and an offer of the peer carrying it was answered by pc
 	pcOffered  bool // an offer of pc was applied in a complete exchange
 
+	peerDrop map[string]bool // mime types the peer's engine lacks (nil: the peer's engine is configured like pc's)
+
+	// attached is the monitor's OWN record of which track the harness attached to which sender of pc, maintained from the
+	// outcomes of the API calls only (a failed call changes nothing). The oracle's "sending track" comes from here, not from
+	// RTPSender.Track(), which is the very field the SDP writer consults before it prints a=msid / a=ssrc.
+	attached map[*RTPSender]*c12Attachment
+
 	answeredFirst bool // the first complete exchange of the case was started by the peer
 	nTrack        int
 	steps         []c12Step
@@ -133,8 +164,25 @@ func (c *c12Case) step(op, detail string, err error) {
 
 func (c *c12Case) violation(sig, what, sdp string) {
 	c.run.Violation(sig, what, c.idx, map[string]any{
-		"engine": c.eng.Name, "always_negotiate_datachannels": c.always, "always_at_construction": c.alwaysInit, "peer_first": c.peerFirst, "steps": c.steps, "offer": sdp, "state": c.stateDump(),
+		"engine": c.eng.Name, "peer_engine": c.peerEngineDesc(), "always_negotiate_datachannels": c.always, "always_at_construction": c.alwaysInit, "peer_first": c.peerFirst, "steps": c.steps, "offer": sdp, "state": c.stateDump(),
 	})
+}
+
+func (c *c12Case) describeCause(snd *RTPSender, cause string) string {
+	if cause == "" {
+		return ""
+	}
+	att := c.attached[snd]
+	api := "nil"
+	if tr := snd.Track(); tr != nil {
+		api = tr.StreamID() + "/" + tr.ID()
+	}
+	mine := "nil"
+	if att.track != nil {
+		mine = fmt.Sprintf("%s (bound on SSRCs %v)", c12TrackLabel(att.track), c12Bound(att.track))
+	}
+
+	return fmt.Sprintf("; the harness attached %s to this sender (last call on it: %s), RTPSender.Track() reports %s", mine, att.lastOp, api)
 }
 
 func (c *c12Case) stateDump() []string {
@@ -146,6 +194,13 @@ func (c *c12Case) stateDump() []string {
 				s += fmt.Sprintf(" track=%s/%s", tr.StreamID(), tr.ID())
 			} else {
 				s += " track=nil"
+			}
+			if att := c.attached[snd]; att != nil {
+				if att.track != nil {
+					s += fmt.Sprintf(" attached{%s bound=%v last=%q unknown=%v}", c12TrackLabel(att.track), c12Bound(att.track), att.lastOp, att.unknown)
+				} else {
+					s += fmt.Sprintf(" attached{nil last=%q unknown=%v}", att.lastOp, att.unknown)
+				}
 			}
 			for _, e := range c12SenderEncodings(snd) {
 				s += fmt.Sprintf(" enc{rid=%q ssrc=%d rtx=%d fec=%d}", e.RID, e.SSRC, e.RTX, e.FEC)
@@ -162,13 +217,149 @@ func (c *c12Case) stateDump() []string {
 	return out
 }
 
-func (c *c12Case) newTrack(kind RTPCodecType, rid string) *TrackLocalStaticSample {
+// c12Track is the track object the harness hands to pion: a TrackLocalStaticSample whose Bind / Unbind calls are recorded.
+// "Bound" (Bind succeeded and no Unbind since) is an observation made by the track itself, independent of any RTPSender
+// field: a bound track is one whose samples the sender transmits, on the SSRC the bind context names.
+type c12Track struct {
+	*TrackLocalStaticSample
+	mime string
+
+	mu    sync.Mutex
+	bound map[string]uint64 // bind context id -> SSRC of the context
+}
+
+func (t *c12Track) Bind(ctx TrackLocalContext) (RTPCodecParameters, error) {
+	codec, err := t.TrackLocalStaticSample.Bind(ctx)
+	if err == nil {
+		t.mu.Lock()
+		if t.bound == nil {
+			t.bound = map[string]uint64{}
+		}
+		t.bound[ctx.ID()] = uint64(ctx.SSRC())
+		t.mu.Unlock()
+	}
+
+	return codec, err
+}
+
+func (t *c12Track) Unbind(ctx TrackLocalContext) error {
+	err := t.TrackLocalStaticSample.Unbind(ctx)
+	if err == nil {
+		t.mu.Lock()
+		delete(t.bound, ctx.ID())
+		t.mu.Unlock()
+	}
+
+	return err
+}
+
+// boundSSRCs: the SSRCs this track is currently bound to (sorted).
+func (t *c12Track) boundSSRCs() []string {
+	t.mu.Lock()
+	defer t.mu.Unlock()
+	out := make([]string, 0, len(t.bound))
+	for _, v := range t.bound {
+		out = append(out, c12U(v))
+	}
+	sort.Strings(out)
+
+	return out
+}
+
+func (t *c12Track) label() string {
+	return t.Kind().String() + " " + strings.TrimPrefix(strings.TrimPrefix(t.mime, "video/"), "audio/") + " " + t.StreamID() + "/" + t.ID()
+}
+
+// c12Attachment: what the harness attached to one sender, and through which call it last touched it.
+type c12Attachment struct {
+	track   TrackLocal // nil: the harness detached the track (successful ReplaceTrack(nil))
+	mine    *c12Track  // == track when the harness built the track object (not for the track AddTransceiverFromKind creates itself)
+	lastOp  string     // last API call on this sender and its outcome class (stable text: part of cause signatures)
+	unknown bool       // a call failed half-way in a manner the statement does not cover: fall back to what the API reports
+}
+
+// attach records that tr (nil: no track) is now the track of sender s.
+func (c *c12Case) attach(s *RTPSender, tr TrackLocal, op string) {
+	if s == nil {
+		return
+	}
+	if c.attached == nil {
+		c.attached = map[*RTPSender]*c12Attachment{}
+	}
+	att := &c12Attachment{track: tr, lastOp: op}
+	att.mine, _ = tr.(*c12Track)
+	c.attached[s] = att
+}
+
+// c12Bound: the SSRCs a track object is bound to right now. For the harness's own tracks this is their own Bind / Unbind
+// record; for a track pion created itself (AddTransceiverFromKind with a sending direction) the binding list of the static
+// track is read white-box. Used for the generator's situation labels and to recognise a half-way failure, and (own tracks
+// only) by the bound-ssrc clause of the oracle.
+func c12Bound(tr TrackLocal) []string {
+	switch t := tr.(type) {
+	case *c12Track:
+		return t.boundSSRCs()
+	case *TrackLocalStaticSample:
+		t.rtpTrack.mu.RLock()
+		defer t.rtpTrack.mu.RUnlock()
+		var out []string
+		for _, b := range t.rtpTrack.bindings {
+			out = append(out, c12U(uint64(b.ssrc)))
+		}
+		sort.Strings(out)
+
+		return out
+	default:
+		return nil
+	}
+}
+
+func c12TrackLabel(tr TrackLocal) string {
+	switch t := tr.(type) {
+	case nil:
+		return "nil"
+	case *c12Track:
+		return t.label()
+	default:
+		return tr.Kind().String() + " (made by pion) " + tr.StreamID() + "/" + tr.ID()
+	}
+}
+
+// c12Codecs: the codecs tracks are made of. The first entries of each kind are registered in every engine of c12Engines; the
+// others only in the "default" engine (RegisterDefaultCodecs), so that tracks exist whose codec is (a) registered and
+// negotiated, (b) registered but not negotiated (peer with a codec subset), (c) not registered at all.
+var c12VideoCodecs = []RTPCodecCapability{ //nolint:gochecknoglobals
+	{MimeType: MimeTypeVP8, ClockRate: 90000},
+	{MimeType: MimeTypeH264, ClockRate: 90000, SDPFmtpLine: "level-asymmetry-allowed=1;packetization-mode=1;profile-level-id=42001f"},
+	{MimeType: MimeTypeVP9, ClockRate: 90000, SDPFmtpLine: "profile-id=0"},
+	{MimeType: MimeTypeAV1, ClockRate: 90000},
+	{MimeType: MimeTypeH265, ClockRate: 90000},
+}
+
+var c12AudioCodecs = []RTPCodecCapability{ //nolint:gochecknoglobals
+	{MimeType: MimeTypeOpus, ClockRate: 48000, Channels: 2},
+	{MimeType: MimeTypePCMU, ClockRate: 8000},
+	{MimeType: MimeTypePCMA, ClockRate: 8000},
+	{MimeType: MimeTypeG722, ClockRate: 8000},
+}
+
+// newTrack builds a track of the given kind. With probability pAny the codec is drawn from the whole list of its kind
+// (registered or not, negotiated or not); otherwise it is one of the usual VP8 / H264 / Opus.
+func (c *c12Case) newTrack(kind RTPCodecType, rid string, pAny float64) *c12Track {
 	c.nTrack++
-	capab := RTPCodecCapability{MimeType: MimeTypeVP8, ClockRate: 90000}
-	if kind == RTPCodecTypeAudio {
-		capab = RTPCodecCapability{MimeType: MimeTypeOpus, ClockRate: 48000, Channels: 2}
-	} else if c.r.Chance(0.3) {
-		capab = RTPCodecCapability{MimeType: MimeTypeH264, ClockRate: 90000, SDPFmtpLine: "level-asymmetry-allowed=1;packetization-mode=1;profile-level-id=42001f"}
+	anyCodec, h264 := c.r.Chance(pAny), c.r.Chance(0.3)
+	var capab RTPCodecCapability
+	switch {
+	case kind == RTPCodecTypeAudio && anyCodec:
+		capab = kit.Pick(c.r, c12AudioCodecs)
+	case kind == RTPCodecTypeAudio:
+		capab = c12AudioCodecs[0]
+	case anyCodec:
+		capab = kit.Pick(c.r, c12VideoCodecs)
+	case h264:
+		capab = c12VideoCodecs[1]
+	default:
+		capab = c12VideoCodecs[0]
 	}
 	var opts []func(*TrackLocalStaticRTP)
 	if rid != "" {
@@ -179,7 +370,24 @@ func (c *c12Case) newTrack(kind RTPCodecType, rid string) *TrackLocalStaticSampl
 		panic(err)
 	}
 
-	return tr
+	return &c12Track{TrackLocalStaticSample: tr, mime: capab.MimeType}
+}
+
+// codecClass says, from the harness's own knowledge of the engines it built, how a track's codec relates to this case.
+func (c *c12Case) codecClass(tr *c12Track) string {
+	registered := c.eng.Name == "default"
+	switch tr.mime {
+	case MimeTypeVP8, MimeTypeH264, MimeTypeOpus, MimeTypePCMU:
+		registered = true
+	}
+	switch {
+	case !registered:
+		return "codec not registered"
+	case c.peerDrop[tr.mime] || (len(c.peerDrop) > 0 && tr.mime != MimeTypeVP8 && tr.mime != MimeTypeH264 && tr.mime != MimeTypeOpus && tr.mime != MimeTypePCMU):
+		return "codec registered, not supported by the peer"
+	default:
+		return "codec registered and supported by the peer"
+	}
 }
 
 func (c *c12Case) kind() RTPCodecType {
@@ -350,7 +558,26 @@ func (c *c12Case) checkOffer(offer SessionDescription) { //nolint:cyclop,gocogni
 		if snd == nil || (dir != RTPTransceiverDirectionSendrecv && dir != RTPTransceiverDirectionSendonly) {
 			continue
 		}
-		track := snd.Track()
+		// Which track is "a sending track" of this sender is decided by the monitor's own record of what the harness attached
+		// (c.attached: AddTrack / AddTransceiverFromTrack / ReplaceTrack outcomes; a failed call changes nothing), not by
+		// RTPSender.Track(): the SDP writer skips a sender whose Track() is nil, so a sender that lost its track by accident
+		// would silence oracle and writer alike. Track() is only compared (model_divergence_sender_track) and names the cause.
+		apiTrack := snd.Track()
+		track := apiTrack
+		var mine *c12Track
+		cause := ""
+		if att := c.attached[snd]; att == nil || att.unknown {
+			c.run.Count("senders_judged_by_api_track", 1)
+		} else {
+			mine = att.mine
+			if att.track != apiTrack {
+				c.run.Count("model_divergence_sender_track", 1)
+				c.run.Seen("model_divergence_sender_track_after", att.lastOp)
+				cause = ":sender-track-differs-from-attached:after-" + att.lastOp
+			}
+			track = att.track
+			c.run.Count("senders_judged_by_own_record", 1)
+		}
 		if track == nil {
 			c.run.Count("senders_without_track", 1)
 
@@ -366,7 +593,7 @@ func (c *c12Case) checkOffer(offer SessionDescription) { //nolint:cyclop,gocogni
 			}
 		}
 		if !found {
-			c.violation("msid-missing", fmt.Sprintf("mid %q: sending track not announced: want a=msid:%s, section has %v", mid, wantMsid, m.AttrAll("msid")), offer.SDP)
+			c.violation("msid-missing"+cause, fmt.Sprintf("mid %q: sending track not announced: want a=msid:%s, section has %v%s", mid, wantMsid, m.AttrAll("msid"), c.describeCause(snd, cause)), offer.SDP)
 		}
 		encs := c12SenderEncodings(snd) // the sender's own state, not GetParameters() (which the SDP writer itself prints)
 		var wantSSRC, wantFID, wantFEC []string
@@ -403,13 +630,24 @@ func (c *c12Case) checkOffer(offer SessionDescription) { //nolint:cyclop,gocogni
 		sort.Strings(wantFID)
 		sort.Strings(wantFEC)
 		if strings.Join(wantSSRC, ",") != strings.Join(gotSSRC, ",") {
-			c.violation("ssrc-set-mismatch", fmt.Sprintf("mid %q: a=ssrc ids %v, sender encodings use %v", mid, gotSSRC, wantSSRC), offer.SDP)
+			c.violation("ssrc-set-mismatch"+cause, fmt.Sprintf("mid %q: a=ssrc ids %v, sender encodings use %v%s", mid, gotSSRC, wantSSRC, c.describeCause(snd, cause)), offer.SDP)
+		}
+		if mine != nil {
+			// the SSRCs the track object itself was bound to (its own Bind / Unbind record): SSRCs in use right now
+			if bound := mine.boundSSRCs(); len(bound) > 0 {
+				c.run.Count("sending_tracks_bound", 1)
+				for _, id := range bound {
+					if k := sort.SearchStrings(gotSSRC, id); k == len(gotSSRC) || gotSSRC[k] != id {
+						c.violation("bound-ssrc-not-announced"+cause, fmt.Sprintf("mid %q: track %s is bound (transmitting) on SSRC %s, a=ssrc ids are %v%s", mid, mine.label(), id, gotSSRC, c.describeCause(snd, cause)), offer.SDP)
+					}
+				}
+			}
 		}
 		if got := c12SSRCGroups(m, "FID"); strings.Join(got, ",") != strings.Join(wantFID, ",") {
-			c.violation("ssrc-group-fid-mismatch", fmt.Sprintf("mid %q: a=ssrc-group:FID %v, sender encodings give %v", mid, got, wantFID), offer.SDP)
+			c.violation("ssrc-group-fid-mismatch"+cause, fmt.Sprintf("mid %q: a=ssrc-group:FID %v, sender encodings give %v", mid, got, wantFID), offer.SDP)
 		}
 		if got := c12SSRCGroups(m, "FEC-FR"); strings.Join(got, ",") != strings.Join(wantFEC, ",") {
-			c.violation("ssrc-group-fec-mismatch", fmt.Sprintf("mid %q: a=ssrc-group:FEC-FR %v, sender encodings give %v", mid, got, wantFEC), offer.SDP)
+			c.violation("ssrc-group-fec-mismatch"+cause, fmt.Sprintf("mid %q: a=ssrc-group:FEC-FR %v, sender encodings give %v", mid, got, wantFEC), offer.SDP)
 		}
 		if len(wantFID) > 0 {
 			c.run.Count("sending_tracks_with_rtx", 1)
@@ -561,9 +799,9 @@ func (c *c12Case) peerMutate() (what string, ok bool) {
 				parts = append(parts, dir.String())
 			}
 		case k < 8:
-			tr := c.newTrack(c.kind(), "")
+			tr := c.newTrack(c.kind(), "", 0)
 			_, err := c.peer.AddTrack(tr)
-			c.step("peer.AddTrack", tr.Kind().String()+" "+tr.StreamID()+"/"+tr.ID(), err)
+			c.step("peer.AddTrack", tr.label(), err)
 			if err == nil {
 				parts = append(parts, "track")
 			}
@@ -591,51 +829,88 @@ func (c *c12Case) peerOffers(tag string) {
 	if c.exchange(c.peer, c.pc, "exchange(peer offers)") {
 		c.run.Seen("ops", "peer offers "+what)
 		c.run.Seen("peer_offer_situations", tag)
+		c.maybeWaitConnected()
 	}
+}
+
+// maybeWaitConnected: in 40% of the exchanges the case goes on only after the transports are up and the operations queue of
+// pc is drained, i.e. after the negotiated senders of pc were started (their tracks bound); otherwise the next operation
+// meets senders that are not started yet or are being started.
+func (c *c12Case) maybeWaitConnected() {
+	if !c.r.Chance(0.4) {
+		return
+	}
+	if !rigWaitConnected(15*time.Second, c.pc, c.peer) {
+		c.run.Count("exchange_not_connected", 1)
+
+		return
+	}
+	rigDrain(c.pc)
+	c.run.Count("exchange_connected", 1)
 }
 
 func (c *c12Case) op() { //nolint:cyclop,gocognit
 	r := c.r
 	pc := c.pc
 	dirs := []RTPTransceiverDirection{RTPTransceiverDirectionSendrecv, RTPTransceiverDirectionSendonly, RTPTransceiverDirectionRecvonly}
-	switch k := r.Intn(100); {
+	k := r.Intn(100)
+	if c.remoteSet > 0 && len(pc.GetSenders()) > 0 && r.Chance(0.2) {
+		k = 54 // once something was negotiated, ReplaceTrack (a call that "should not require negotiation") gets a larger share
+	}
+	switch {
 	case k < 15:
-		tr := c.newTrack(c.kind(), "")
-		_, err := pc.AddTrack(tr)
+		tr := c.newTrack(c.kind(), "", c12PAnyCodec)
+		snd, err := pc.AddTrack(tr)
 		c.localNew = true
-		c.step("AddTrack", tr.Kind().String()+" "+tr.StreamID()+"/"+tr.ID(), err)
+		c.step("AddTrack", tr.label(), err)
+		if err == nil {
+			c.attach(snd, tr, "AddTrack")
+		}
 		c.run.Seen("ops", "AddTrack")
+		c.run.Seen("tracks_attached", c.codecClass(tr))
 	case k < 28:
 		kind, dir := c.kind(), kit.Pick(r, dirs)
-		_, err := pc.AddTransceiverFromKind(kind, RTPTransceiverInit{Direction: dir})
+		t, err := pc.AddTransceiverFromKind(kind, RTPTransceiverInit{Direction: dir})
 		c.localNew = true
 		c.step("AddTransceiverFromKind", kind.String()+" "+dir.String(), err)
+		if err == nil && t.Sender() != nil {
+			// with a sending direction pion creates a track of its own: its identity is taken once, right after the call
+			if made := t.Sender().Track(); made != nil {
+				c.attach(t.Sender(), made, "AddTransceiverFromKind")
+			}
+		}
 		c.run.Seen("ops", "AddTransceiverFromKind "+dir.String())
 	case k < 39:
 		c.localNew = true
-		tr := c.newTrack(c.kind(), "")
+		tr := c.newTrack(c.kind(), "", c12PAnyCodec)
 		init := RTPTransceiverInit{Direction: kit.Pick(r, dirs[:2])}
-		detail := tr.Kind().String() + " " + init.Direction.String() + " " + tr.StreamID() + "/" + tr.ID()
+		detail := init.Direction.String() + " " + tr.label()
 		if r.Chance(0.25) {
 			init.SendEncodings = []RTPEncodingParameters{{RTPCodingParameters{SSRC: SSRC(r.Range(1, 1<<30))}}}
 			detail += fmt.Sprintf(" ssrc=%d", init.SendEncodings[0].SSRC)
 		}
-		_, err := pc.AddTransceiverFromTrack(tr, init)
+		t, err := pc.AddTransceiverFromTrack(tr, init)
 		c.step("AddTransceiverFromTrack", detail, err)
+		if err == nil {
+			c.attach(t.Sender(), tr, "AddTransceiverFromTrack")
+		}
+		c.run.Seen("tracks_attached", c.codecClass(tr))
 		c.run.Seen("ops", "AddTransceiverFromTrack "+init.Direction.String())
 	case k < 47:
 		c.localNew = true
 		// simulcast: base track with a RID, further encodings through AddEncoding
 		rids := []string{"q", "h", "f"}[:r.Range(2, 3)]
-		base := c.newTrack(RTPCodecTypeVideo, rids[0])
+		base := c.newTrack(RTPCodecTypeVideo, rids[0], c12PAnyCodec)
 		t, err := pc.AddTransceiverFromTrack(base, RTPTransceiverInit{Direction: kit.Pick(r, dirs[:2])})
-		c.step("AddTransceiverFromTrack(simulcast)", base.StreamID()+"/"+base.ID()+" rid="+rids[0], err)
+		c.step("AddTransceiverFromTrack(simulcast)", base.label()+" rid="+rids[0], err)
 		if err == nil {
+			c.attach(t.Sender(), base, "AddTransceiverFromTrack(simulcast)")
 			for _, rid := range rids[1:] {
-				tr, terr := NewTrackLocalStaticSample(base.Codec(), base.ID(), base.StreamID(), WithRTPStreamID(rid))
+				raw, terr := NewTrackLocalStaticSample(base.Codec(), base.ID(), base.StreamID(), WithRTPStreamID(rid))
 				if terr != nil {
 					panic(terr)
 				}
+				tr := &c12Track{TrackLocalStaticSample: raw, mime: base.mime}
 				err = t.Sender().AddEncoding(tr)
 				c.step("AddEncoding", "rid="+rid, err)
 			}
@@ -649,6 +924,13 @@ func (c *c12Case) op() { //nolint:cyclop,gocognit
 		n := r.Intn(len(senders))
 		err := pc.RemoveTrack(senders[n])
 		c.step("RemoveTrack", fmt.Sprintf("sender %d of %d", n, len(senders)), err)
+		if att := c.attached[senders[n]]; att != nil {
+			if err == nil {
+				att.track, att.mine, att.lastOp, att.unknown = nil, nil, "RemoveTrack", false
+			} else {
+				att.lastOp, att.unknown = "RemoveTrack-failed", true // may have stopped the sender half-way: outside the statement
+			}
+		}
 		c.run.Seen("ops", "RemoveTrack")
 	case k < 63:
 		senders := pc.GetSenders()
@@ -656,24 +938,56 @@ func (c *c12Case) op() { //nolint:cyclop,gocognit
 			return
 		}
 		n := r.Intn(len(senders))
+		if r.Chance(0.5) {
+			// prefer a sender whose track is bound (transmitting), if there is one
+			var live []int
+			for j, s := range senders {
+				if att := c.attached[s]; att != nil && len(c12Bound(att.track)) > 0 {
+					live = append(live, j)
+				}
+			}
+			if len(live) > 0 {
+				n = kit.Pick(r, live)
+			}
+		}
 		snd := senders[n]
-		var err error
-		switch r.Intn(4) {
-		case 0:
-			err = snd.ReplaceTrack(nil)
+		var old TrackLocal
+		if att := c.attached[snd]; att != nil {
+			old = att.track
+		}
+		wasBound := len(c12Bound(old)) > 0
+		situation := "sender not transmitting"
+		if wasBound {
+			situation = "sender transmitting"
+		}
+		if t := c.transceiverOf(snd); t != nil && len(c12SenderEncodings(snd)) > 1 {
+			situation += " (simulcast)"
+		}
+		// ReplaceTrack(nil), or a new track: of the sender's kind (any codec of c12Codecs with probability 1/2: negotiated,
+		// registered but not negotiated, not registered) or, rarely, of the other kind. Error paths must leave the sender as it was.
+		switch j := r.Intn(20); {
+		case j < 5:
+			err := c.replaceTrack(snd, nil)
 			c.step("ReplaceTrack", fmt.Sprintf("sender %d: nil", n), err)
+			c.replaced(snd, nil, err, old, wasBound)
 			c.run.Seen("ops", "ReplaceTrack nil")
+			c.run.Seen("replace_track_outcomes", situation+", nil: "+c12ReplaceOutcome(err))
 		default:
 			kind := RTPCodecTypeVideo
-			if tr := snd.Track(); tr != nil {
-				kind = tr.Kind()
-			} else if t := c.transceiverOf(snd); t != nil {
+			if t := c.transceiverOf(snd); t != nil {
 				kind = t.Kind()
 			}
-			tr := c.newTrack(kind, "")
-			err = snd.ReplaceTrack(tr)
-			c.step("ReplaceTrack", fmt.Sprintf("sender %d: %s/%s", n, tr.StreamID(), tr.ID()), err)
+			what := ""
+			if j == 19 {
+				kind = map[RTPCodecType]RTPCodecType{RTPCodecTypeVideo: RTPCodecTypeAudio, RTPCodecTypeAudio: RTPCodecTypeVideo}[kind]
+				what = "track of the other kind, "
+			}
+			tr := c.newTrack(kind, "", 0.5)
+			err := c.replaceTrack(snd, tr)
+			c.step("ReplaceTrack", fmt.Sprintf("sender %d: %s", n, tr.label()), err)
+			c.replaced(snd, tr, err, old, wasBound)
 			c.run.Seen("ops", "ReplaceTrack track")
+			c.run.Seen("replace_track_outcomes", situation+", "+what+c.codecClass(tr)+": "+c12ReplaceOutcome(err))
 		}
 	case k < 69:
 		trs := pc.GetTransceivers()
@@ -683,6 +997,9 @@ func (c *c12Case) op() { //nolint:cyclop,gocognit
 		n := r.Intn(len(trs))
 		err := trs[n].Stop()
 		c.step("Stop", fmt.Sprintf("transceiver %d", n), err)
+		if att := c.attached[trs[n].Sender()]; att != nil {
+			att.lastOp, att.unknown = "Stop", true // a stopped transceiver never sends again: the statement has nothing to say about its track
+		}
 		c.run.Seen("ops", "Stop")
 	case k < 78:
 		_, err := pc.CreateDataChannel(fmt.Sprintf("dc%d", len(c.steps)), nil)
@@ -715,14 +1032,7 @@ func (c *c12Case) op() { //nolint:cyclop,gocognit
 			return
 		}
 		c.run.Seen("ops", "exchange")
-		if r.Chance(0.4) {
-			if !rigWaitConnected(15*time.Second, pc, c.peer) {
-				c.run.Count("exchange_not_connected", 1)
-			} else {
-				rigDrain(pc)
-				c.run.Count("exchange_connected", 1)
-			}
-		}
+		c.maybeWaitConnected()
 	default:
 		// the peer adds media / a data channel and offers. If this side holds transceivers the peer has not seen, they are
 		// negotiated first so that mids are known to both; otherwise the peer may offer straight away (also as the very first
@@ -748,6 +1058,84 @@ func (c *c12Case) op() { //nolint:cyclop,gocognit
 	}
 }
 
+// c12PAnyCodec: probability that a track attached by AddTrack / AddTransceiverFromTrack is of an arbitrary codec of c12Codecs.
+const c12PAnyCodec = 0.06
+
+// c12ReplaceOutcome classifies the result of ReplaceTrack by error identity (stable text, part of cause signatures).
+func c12ReplaceOutcome(err error) string {
+	switch {
+	case err == nil:
+		return "ok"
+	case errors.Is(err, ErrUnsupportedCodec):
+		return "failed:unsupported-codec"
+	case errors.Is(err, ErrRTPSenderNewTrackHasIncorrectKind):
+		return "failed:incorrect-kind"
+	case errors.Is(err, ErrRTPSenderNewTrackHasIncorrectEnvelope):
+		return "failed:incorrect-envelope"
+	default:
+		return "failed:other"
+	}
+}
+
+// replaced updates the monitor's record after snd.ReplaceTrack(tr) returned err. Success: tr is attached. Failure: nothing
+// changes ("switching the track" did not happen, the previous track stays the sender's track) — unless the call got half-way
+// in a manner the statement does not cover: an unclassified error, or the previous track was transmitting before the call and
+// is not any more (it could not be re-bound); then the record is marked unknown and the oracle falls back to Track().
+func (c *c12Case) replaced(snd *RTPSender, tr *c12Track, err error, old TrackLocal, wasBound bool) {
+	att := c.attached[snd]
+	if att == nil {
+		c.attach(snd, nil, "")
+		att = c.attached[snd]
+		att.unknown = true
+	}
+	out := c12ReplaceOutcome(err)
+	if tr == nil {
+		att.lastOp = "ReplaceTrack(nil)-" + out
+	} else {
+		att.lastOp = "ReplaceTrack-" + out
+	}
+	switch {
+	case err == nil && tr == nil:
+		att.track, att.mine, att.unknown = nil, nil, false
+	case err == nil:
+		att.track, att.mine, att.unknown = tr, tr, false
+	case out == "failed:other", wasBound && len(c12Bound(old)) == 0:
+		att.unknown = true
+	}
+}
+
+// c12ErrReplacePanicked: ReplaceTrack panicked inside pion (recovered here: the call is synchronous). Not a matter of C12 —
+// no offer is involved — but the history goes on: the sender's record is marked unknown (outcome class "failed:other").
+var c12ErrReplacePanicked = errors.New("ReplaceTrack panicked") //nolint:gochecknoglobals
+
+func (c *c12Case) replaceTrack(snd *RTPSender, tr *c12Track) (err error) {
+	defer func() {
+		if p := recover(); p != nil {
+			c.run.Count("replace_track_panics", 1)
+			c.run.Seen("replace_track_panic_values", c12ErrClass(fmt.Errorf("%v", p)))
+			err = fmt.Errorf("%w: %v", c12ErrReplacePanicked, p)
+		}
+	}()
+	if tr == nil {
+		return snd.ReplaceTrack(nil)
+	}
+
+	return snd.ReplaceTrack(tr)
+}
+
+func (c *c12Case) peerEngineDesc() string {
+	if len(c.peerDrop) == 0 {
+		return "like pc's"
+	}
+	var ms []string
+	for m := range c.peerDrop {
+		ms = append(ms, m)
+	}
+	sort.Strings(ms)
+
+	return "explicit list without " + strings.Join(ms, ", ")
+}
+
 func (c *c12Case) transceiverOf(s *RTPSender) *RTPTransceiver {
 	for _, t := range c.pc.GetTransceivers() {
 		if t.Sender() == s {
@@ -759,15 +1147,17 @@ func (c *c12Case) transceiverOf(s *RTPSender) *RTPTransceiver {
 }
 
 func TestVerifC12(t *testing.T) {
-	run := kit.Start(t, "C12", "case = engine (default / plain / rtx / rtx+flexfec / flexfec) x AlwaysNegotiateDataChannels at construction x who starts the first negotiation "+
+	run := kit.Start(t, "C12", "case = engine (default / plain / rtx / rtx+flexfec / flexfec) x AlwaysNegotiateDataChannels at construction x peer engine (like pc's / a codec subset) x who starts the first negotiation "+
 		"(pc, or the peer with a media-only / data-only / media+data offer that pc answers) x a history of 1-9 operations "+
-		"(AddTrack, AddTransceiverFromKind/FromTrack in all directions, simulcast AddEncoding, RemoveTrack, ReplaceTrack incl. nil, Stop, CreateDataChannel, "+
+		"(AddTrack, AddTransceiverFromKind/FromTrack in all directions, simulcast AddEncoding, RemoveTrack, ReplaceTrack on started and not started senders "+
+		"(nil / track of a negotiated / registered-but-not-negotiated / unregistered codec / of the other kind: success and every error path), Stop, CreateDataChannel, "+
 		"SetConfiguration incl. switching AlwaysNegotiateDataChannels on, complete exchange with a pion peer, peer-initiated offer with transceivers / tracks / data channel, "+
 		"direct or after pc's own offer), CreateOffer checked after every operation; non-trivial when some checked offer had "+
 		">= 2 m-sections and >= 1 sending track; distinct by the operation history")
 	defer run.Finish()
 	run.Assume("kit.ParseSDP line splitter is the trusted base; state (GetTransceivers, Mid, Kind, Direction, Sender, Track; sender encodings white-box from RTPSender.trackEncodings) is read right after CreateOffer returns, no concurrent mutators")
-	run.Assume("the remote side of exchanges is a pion PeerConnection with an identically configured MediaEngine")
+	run.Assume("the remote side of exchanges is a pion PeerConnection whose MediaEngine is configured like pc's or registers a subset of its codecs")
+	run.Assume("which track a sender sends is the monitor's record of the harness's own successful AddTrack/AddTransceiverFrom*/ReplaceTrack/RemoveTrack calls (a failed call changes nothing; a call that fails half-way — unclassified error, previous track no longer bound — makes the record 'unknown' and the oracle falls back to RTPSender.Track())")
 
 	n := kit.N(2000, 30000)
 	run.Parallel(n, 16, func(i int) {
@@ -775,6 +1165,19 @@ func TestVerifC12(t *testing.T) {
 		c := &c12Case{run: run, idx: i, r: r, eng: kit.Pick(r, c12Engines), always: r.Chance(0.2)}
 		c.alwaysInit = c.always
 		c.peerFirst = r.Chance(0.3)
+		if r.Chance(0.25) {
+			// the peer supports only a subset of the codecs: after a negotiation pc has fewer negotiated than registered codecs
+			c.peerDrop = map[string]bool{}
+			v, a := kit.Pick(r, []string{MimeTypeVP8, MimeTypeH264, ""}), kit.Pick(r, []string{MimeTypeOpus, MimeTypePCMU, ""})
+			if v == "" && a == "" {
+				v = MimeTypeH264
+			}
+			for _, m := range []string{v, a} {
+				if m != "" {
+					c.peerDrop[m] = true
+				}
+			}
+		}
 		defer func() {
 			if p := recover(); p != nil {
 				fmt.Printf("C12: case %d panicked: %v\n  steps: %+v\n", i, p, c.steps)
@@ -788,7 +1191,7 @@ func TestVerifC12(t *testing.T) {
 
 			return
 		}
-		c.peer, err = rigNewPC(rigOpts{ME: c12BuildEngine(c.eng), Quiet: true})
+		c.peer, err = rigNewPC(rigOpts{ME: c12BuildEngineWithout(c.eng, c.peerDrop), Quiet: true})
 		if err != nil {
 			rigClose(c.pc)
 			run.Inconclusive("new-peerconnection: " + err.Error())
@@ -818,11 +1221,12 @@ func TestVerifC12(t *testing.T) {
 		for _, s := range c.steps {
 			hist = append(hist, s.Op+" "+s.Detail+" "+s.Err)
 		}
-		run.Case(c.eng.Name+fmt.Sprint(c.alwaysInit, c.peerFirst)+"|"+strings.Join(hist, ";"), c.nontriv)
+		run.Case(c.eng.Name+fmt.Sprint(c.alwaysInit, c.peerFirst)+c.peerEngineDesc()+"|"+strings.Join(hist, ";"), c.nontriv)
 		run.Seen("engine", c.eng.Name)
+		run.Seen("peer_engine", c.peerEngineDesc())
 		run.Seen("first_negotiation", map[bool]string{true: "peer offers first", false: "pc offers first / none"}[c.peerFirst])
 		if i < 30 && c.nontriv && c.offers >= 3 {
-			run.Sample(map[string]any{"case": i, "engine": c.eng.Name, "always": c.always, "steps": c.steps, "final_state": c.stateDump()})
+			run.Sample(map[string]any{"case": i, "engine": c.eng.Name, "peer_engine": c.peerEngineDesc(), "always": c.always, "steps": c.steps, "final_state": c.stateDump()})
 		}
 	})
 }
